@@ -45,12 +45,14 @@ fn main() {
         }
         "scan-replay" => layout::replay_scan(&a(2), &mut out),
         "layout-record" => {
-            // layout-record <corpus> <patterns.ndjson> <c02|c17> <per-program> <trace> <texts>
+            // layout-record <corpus> <patterns.ndjson> <c02|c17> <per-program> <trace> <texts> <detect trace>
             let mut w = NdjsonWriter::new(&a(6));
             let mut t = NdjsonWriter::new(&a(7));
-            layout::record(&a(2), &a(3), &a(4), a(5).parse().unwrap_or(8), &mut w, &mut t, &mut out);
+            let mut d = NdjsonWriter::new(&args.get(8).cloned().unwrap_or_else(|| "-".to_string()));
+            layout::record(&a(2), &a(3), &a(4), a(5).parse().unwrap_or(8), &mut w, &mut t, &mut d, &mut out);
             w.finish();
             t.finish();
+            d.finish();
         }
         "report-replay" => {
             // report-replay <behaviours> <k renderings> <random maps> <trace>
